@@ -3,6 +3,7 @@
 import sys, os, json, shutil, re
 pid, m = sys.argv[1], sys.argv[2]
 extra = sys.argv[3] if len(sys.argv) > 3 else '--tier quick'
+chk = sys.argv[4] if len(sys.argv) > 4 else pid   # property whose check was run (a change seeded for one property may be caught by another property's check)
 src = '/tmp/wt/%s/out/%s' % (pid, m)
 dst = '/verif/seeded/%s-%s' % (pid, m)
 os.makedirs(dst, exist_ok=True)
@@ -24,11 +25,11 @@ meta.update({
                         'meaning': 'existing lib test-suite passes with the patch (63 tests); demo test fails with the patch (rc 101) and passes without it (rc 0)'},
 })
 # detection result, if a mutant run log exists
-lg = '/tmp/mutant-%s-%s.log' % (m, pid)
+lg = '/tmp/mutant-%s-%s.log' % (m, chk)
 if os.path.exists(lg):
     t = open(lg, errors='replace').read()
     viol = re.findall(r'^VIOLATION property=(\S+) replay=\S+\n  harness (\S+): (.*)$', t, re.M)
-    meta['check_run'] = {'cmd': 'vlib/try_mutant.sh %s /tmp/wt/%s %s/patch.diff %s' % (pid, pid, src, extra),
+    meta['check_run'] = {'cmd': 'vlib/try_mutant.sh %s /tmp/wt/%s %s/patch.diff %s' % (chk, pid, src, extra), 'check_of_property': chk,
                          'detected': bool(viol), 'violations': [{'harness': v[1], 'failed_check': v[2][:300]} for v in viol][:6],
                          'inconclusive': re.findall(r'^INCONCLUSIVE: (.*)$', t, re.M)[:4]}
 json.dump(meta, open(meta_p, 'w'), indent=1)
